@@ -81,10 +81,11 @@ pub fn eval_hist(case: &Case) -> Driver {
 pub fn evaluate(prop: &str, case: &Case, fault: &Fault) -> Vec<Failure> {
     match fault {
         Fault::None => {
-            let d = if prop == "C04" || prop == "C17" || prop == "C12" || prop == "C01" {
+            let squatted = prop == "C06" && !case.foreign.is_empty();
+            let d = if prop == "C04" || prop == "C17" || prop == "C12" || prop == "C01" || squatted {
                 let mut d = Driver::new(case);
                 d.lenient = true;
-                d.lenient_io = prop == "C17";
+                d.lenient_io = prop == "C17" || squatted;
                 d.keep_obs = prop == "C12";
                 d.run_all(&case.ops);
                 d
